@@ -34,6 +34,55 @@ Theorem C03_unreachable :
 Proof. exact rel_reject. Qed.
 Print Assumptions C03_unreachable.
 
+(** PROGRAM LEVEL.  In every program that passes 1 and 2 accept (any interleaving of segments, .org gaps,
+    data, other instructions before and after), a relative instruction standing anywhere in a code segment
+    is found in the flash image as  before ++ bs ++ after  with |before| = 2 * a, where a is ALSO the
+    address the encoder computed the displacement from (the symbol pc reads a as well), and the operands
+    are evaluated over the labels, .equ and #define tables exactly as pass 1 left them (positions of labels:
+    C02_label).  Hence, whatever target value t the operand denotes: the word at byte 2a of the image decodes
+    to the statement with displacement t - (a + 1) - the jump lands on t - whenever that displacement fits;
+    and ([C03_never_out_of_reach]) an image never contains a relative instruction whose displacement does not. *)
+Require Import AvraV.Model.Parse AvraV.Model.Passes AvraV.Proofs.LayoutProofs AvraV.Proofs.BranchProofs.
+Local Open Scope N_scope.
+Theorem C03_in_program : forall (k : core) (s : spelling) fuel c segs r1 r2,
+  pass1 c segs = Ok r1 -> pass2 fuel (p1_ctx r1) (p1_segs r1) = Ok r2 -> Forall plain_seg segs ->
+  2 * flash_size (dev c) < lim31 -> eeprom_size (dev c) < lim31 ->
+  relative_spelling s -> is_avr8l (dev c) = isred k ->
+  forall pre sg post ipre cp args ipost,
+    segs = (pre ++ sg :: post)%list -> seg_t sg = SCode ->
+    items sg = (ipre ++ (cp, IInstr (op_of (sp_name s)) args) :: ipost)%list ->
+  exists a cx before bs after,
+    p2_code r2 = (before ++ bs ++ after)%list /\ N.of_nat (length before) = 2 * a /\
+    labels cx = labels (p1_ctx r1) /\ equs cx = equs (p1_ctx r1) /\ defines cx = defines (p1_ctx r1) /\ dev cx = dev c /\
+    get_special cx (lit "pc") = Some (EConst (Z.of_N a)) /\
+    forall (pre_w : list warg) (t : Z),
+      map (view_of fuel cx) args = map wview (pre_w ++ [WExp t])%list ->
+      fits (sp_ops s) (pre_w ++ [WExp (t - (Z.of_N a + 1))%Z])%list = true ->
+      exists words, bs = bytes_of words /\
+        decode k words = canon_norm (sp_name s) (pre_w ++ [WExp (t - (Z.of_N a + 1))%Z])%list.
+Proof. exact branch_in_program. Qed.
+Print Assumptions C03_in_program.
+Theorem C03_never_out_of_reach : forall fuel c segs r1 r2,
+  pass1 c segs = Ok r1 -> pass2 fuel (p1_ctx r1) (p1_segs r1) = Ok r2 -> Forall plain_seg segs ->
+  2 * flash_size (dev c) < lim31 -> eeprom_size (dev c) < lim31 ->
+  forall pre sg post ipre cp op args ipost,
+    segs = (pre ++ sg :: post)%list -> seg_t sg = SCode -> rel_op op = true ->
+    items sg = (ipre ++ (cp, IInstr op args) :: ipost)%list ->
+  exists a cx before bs after,
+    p2_code r2 = (before ++ bs ++ after)%list /\ N.of_nat (length before) = 2 * a /\ labels cx = labels (p1_ctx r1) /\
+    forall (vs0 : list view) (t : Z),
+      map (view_of fuel cx) args = (vs0 ++ [wview (WExp t)])%list ->
+      (- 2 ^ (rel_bits op - 1) <= t - (Z.of_N a + 1) < 2 ^ (rel_bits op - 1))%Z.
+Proof. exact branch_fits_in_program. Qed.
+Print Assumptions C03_never_out_of_reach.
+(** a name that is bound only as a label denotes, as an operand, the label's position *)
+Theorem C03_label_operand : forall fuel cx L seg t,
+  get_define cx L = None -> get_equ cx L = None -> get_set cx L = None -> get_special cx L = None -> get_def cx L = None ->
+  lookup (lower L) (labels cx) = Some (seg, t) ->
+  view_of (S fuel) cx (OE (EIdent L)) = wview (WExp (Z.of_N t)).
+Proof. exact label_reference. Qed.
+Local Open Scope Z_scope.
+
 Example C03_examples :
   relative_spelling {| sp_name := "brne"; sp_core := CAny; sp_ops := [PExp k_ (KRel 7)] |} /\
   rel_bits (OBr BrNe) = 7 /\ rel_bits ORjmp = 12 /\
@@ -43,3 +92,17 @@ Example C03_examples :
   is_ok (process 3 (ctx_new default_device) ORjmp [OE (EConst 2149)] 100) = false /\
   is_ok (process 3 (ctx_new default_device) ORjmp [OE (EConst 2148)] 100) = true.
 Proof. vm_compute. repeat split; try reflexivity. repeat (first [left; reflexivity | right]). Qed.
+
+(** whole pipeline: the label stands at word 1; the branches at words 16, 17 (after an .org gap and a data
+    segment in between) decode to displacements 1-(16+1), 1-(17+1); `rcall pc` calls itself *)
+Definition word_at (img : list N) (a : nat) : list Z :=
+  match skipn (2 * a) img with lo :: hi :: _ => [Z.of_N (lo + 256 * hi)%N] | _ => [] end.
+Definition nl := String (Ascii.ascii_of_N 10) EmptyString.
+Example C03_program_example :
+  let prog := " nop" ++ nl ++ "target: nop" ++ nl ++ ".dseg" ++ nl ++ " .byte 3" ++ nl ++ ".cseg" ++ nl ++ ".org 0x10" ++ nl ++
+              " brne target" ++ nl ++ " rjmp target" ++ nl ++ " rcall pc" ++ nl in
+  match build_str 200 (list_ascii_of_string prog) with
+  | Ok b => Some (decode Full (word_at (b_code b) 16), decode Full (word_at (b_code b) 17), decode Full (word_at (b_code b) 18))
+  | _ => None
+  end = Some (Some ("brbc", [WExp 1; WExp (-16)]), Some ("rjmp", [WExp (-17)]), Some ("rcall", [WExp (-1)])).
+Proof. vm_compute. reflexivity. Qed.
